@@ -228,7 +228,8 @@ func (x *Exec) loopHeader(fr *Frame, h *ssa.BasicBlock, pred *ssa.BasicBlock, np
 		}
 	}
 	fr.loopEntry[h] = st.clone()
-	// havoc
+	// havoc (allocation watermark first: objects allocated by earlier iterations are live)
+	st.havocAlloc()
 	var fresh []Val
 	for i := 0; i < nphi; i++ {
 		phi := h.Instrs[i].(*ssa.Phi)
@@ -266,7 +267,6 @@ func (x *Exec) loopHeader(fr *Frame, h *ssa.BasicBlock, pred *ssa.BasicBlock, np
 			st.heap[key] = hNew
 		}
 	}
-	st.havocAlloc()
 	for gname, gv := range st.ghost {
 		if lc != nil && lc.GhostModified[gname] {
 			nv := freshVal(gv.T, "g."+gname)
